@@ -46,6 +46,37 @@ def replay(tag, rec):
         cl('writer_tokens_equal_spec_numpy_arguments', realnp == toks, 'real writer on numpy arrays %r, spec %r' % (realnp, toks))
     except Exception as e:  # noqa
         cl('writer_tokens_equal_spec_numpy_arguments', False, 'numpy arguments: exception %s: %s' % (type(e).__name__, e))
+    # the decisions as the generator itself takes and hands them over: create_ties_indicators is run with the decision
+    # vector injected at the RNG boundary (numpy.random.choice returns the chosen elements of the code's OWN choice array,
+    # so dtype and container are whatever the code uses); all-tied / none-tied vectors go through tie probability 1 / 0
+    # without any injection.  Whatever it returns is passed to the writer unchanged.
+    if lst:
+        try:
+            import numpy as np
+            orig = np.random.choice
+            used = []
+
+            def fake(a, size=None, replace=True, p=None):
+                arr = np.asarray(a)
+                if arr.ndim == 1 and len(arr) == 2 and size == len(ties):
+                    used.append(1)
+                    return arr[np.array(ties, dtype=int)]
+                return orig(a, size=size, replace=replace, p=p)
+            if all(t == 1 for t in ties) or not any(ties):
+                ind = gs.create_ties_indicators([np.array(lst, dtype=np.int64)], 1.0 if ties[0] else 0.0)[0]
+            else:
+                np.random.choice = fake
+                try:
+                    ind = gs.create_ties_indicators([np.array(lst, dtype=np.int64)], 0.5)[0]
+                finally:
+                    np.random.choice = orig
+            if len(ind) == len(ties) and [bool(x) for x in ind] == [bool(t) for t in ties]:
+                realp = [str(x) for x in gs.create_string_pref(np.array(lst, dtype=np.int64), ind)]
+                cl('writer_tokens_equal_spec_generator_pipeline', realp == toks,
+                   'create_ties_indicators -> create_string_pref: %r (indicators %r), spec %r' % (realp, ind, toks))
+            # (otherwise the decisions were not taken where they were injected: no verdict for this presentation)
+        except Exception as e:  # noqa
+            cl('writer_tokens_equal_spec_generator_pipeline', False, 'generator pipeline: exception %s: %s' % (type(e).__name__, e))
     # reader on the specification's text
     rd = getattr(fileIO, '_get_simple_pref_list_and_ranks', None)
     if rd is not None:
